@@ -14,6 +14,14 @@ out+=["","#### Independently seeded changes (`/verif/seeded/<id>/`)","","| seed 
 for p in sorted(glob.glob(f"{V}/seeded/*/meta.json")):
     m=json.load(open(p))
     out.append(f"| {m['seed']} | {m['breaks_property']} | {m['needs_to_manifest']} | {m['check_result']} |")
+C=json.load(open(f"{V}/checks.json"))
+out+=["","#### Checks as built (from checks.json: what each check enumerates and assumes)","","| property | engine | technique | what is covered | assumptions / trusted base |","|---|---|---|---|---|"]
+for pid in sorted(C["properties"]):
+    p=C["properties"][pid]
+    if p.get("claimed"):
+        out.append(f"| {pid} | {p['engine']} | {p['technique']} | {p['level_text']} | {p['level_note']} |")
+    else:
+        out.append(f"| {pid} | — | not applicable | {p.get('reason','')} | |")
 out+=["","<!-- AUTO:END -->"]
 s=open(f"{V}/DESIGN.md").read()
 blk="\n".join(out)
